@@ -636,3 +636,62 @@ def run_aligned(prog, rep, floor=6):
     if n < floor:
         raise AnalysisBroken('R-ALIGNED: only %d per-dimension containers found' % n)
     return rule
+
+
+# ---------------------------------------------------------------- R-OUTPAIR
+def run_outpair(prog, rep, floor=2):
+    """R-OUTPAIR (C05j): a function that answers through several reference out-parameters sets them together: in every if / else-if
+    chain, each arm that writes one of the out-parameters writes all the out-parameters any arm writes.  An arm that leaves one of
+    them alone hands the caller the value of a previous call (callers reuse one local pair across a loop over dimensions)."""
+    sem = Sem(prog)
+    rule = rep.rule('R-OUTPAIR', 'within each if/else-if chain of a function with several reference out-parameters, every arm that writes one of them writes all of them (no arm leaves a stale value from the previous call)', floor=floor)
+    n = 0
+    for f in sorted(prog.funcs.values(), key=lambda f: (f.file or '', f.line or 0)):
+        if f.body is None or not (f.file or '').endswith('src/util/dataAccess.cpp'):
+            continue
+        outs = [p for p in f.params if p['type'].endswith('&') and not p['type'].endswith('&&') and not p['type'].startswith('const ')]
+        if len(outs) < 2:
+            continue
+        olids = {p['lid']: p['name'] for p in outs}
+        mods = sem.mods(f)
+        modnodes = {lid: [m.id for m in mods.get(lid, [])] for lid in olids}
+
+        def written(region):
+            ids = set(x.id for x in region.walk())
+            return frozenset(olids[lid] for lid, ms in modnodes.items() if any(i in ids for i in ms))
+
+        seen = set()
+        for node in f.walk():
+            if node.k != 'if' or node.id in seen:
+                continue
+            # collect the chain: then-arms of if / else if ... plus a final else
+            arms = []
+            cur = node
+            while cur is not None and cur.k == 'if':
+                seen.add(cur.id)
+                if len(cur.c) > 3 and cur.c[3] is not None:
+                    arms.append(cur.c[3])
+                els = cur.c[4] if len(cur.c) > 4 else None
+                if els is not None and els.k == 'if':
+                    cur = els
+                else:
+                    if els is not None:
+                        arms.append(els)
+                    cur = None
+            ws = [(a, written(a)) for a in arms]
+            nonempty = [w for a, w in ws if w]
+            if len(nonempty) < 2:
+                continue
+            n += 1
+            union = frozenset().union(*nonempty)
+            bad = [(a, w) for a, w in ws if w and w != union]
+            key = '%s|chain@%s' % (f.q + ('(MultiTag)' if 'MultiTag' in f.sig else '(Tag)' if 'nix::Tag' in f.sig else ''), len([x for x in seen if x < node.id]))
+            if bad:
+                a, w = bad[0]
+                rule.bad(key, rep.where(a), f.label(), 'this arm writes only %s of the out-parameters %s its sibling arms write: %s keeps the value of the previous call '
+                         '(the caller reuses the same locals for every dimension)' % (sorted(w), sorted(union), sorted(union - w)))
+            else:
+                rule.ok(key, rep.where(node), f.label(), 'all %d writing arms write %s' % (len(nonempty), sorted(union)))
+    if n < floor:
+        raise AnalysisBroken('R-OUTPAIR: only %d if-chains writing out-parameters found' % n)
+    return rule
